@@ -95,6 +95,8 @@ func Prog(req *Request) (res *ProgRes) {
 		}
 	}()
 
+	m2Cur = r
+	defer func() { m2Cur = nil }()
 	for _, def := range req.Fns {
 		if _, dup := r.fns[def.ID]; dup {
 			panic(badTypes{fmt.Sprintf("duplicate fn id %d", def.ID)})
@@ -215,7 +217,7 @@ func (r *run) exec(i int, op Op, or *OpRes) {
 		}
 		r.guarded(i, or, func() error { return sc.Provide(fs.value, opts...) })
 		if op.Info && !(pi.ID == 0 && pi.Inputs == nil && pi.Outputs == nil) {
-			or.Info = &Info{ID: 0, In: r.inputs(pi.Inputs), Out: r.outputs(pi.Outputs)}
+			or.Info = &Info{ID: r.infoID(int64(pi.ID), op.Fn), In: r.inputs(pi.Inputs), Out: r.outputs(pi.Outputs)}
 		}
 
 	case "decorate":
@@ -229,7 +231,7 @@ func (r *run) exec(i int, op Op, or *OpRes) {
 		}
 		r.guarded(i, or, func() error { return sc.Decorate(fs.value, opts...) })
 		if op.Info && !(di.ID == 0 && di.Inputs == nil && di.Outputs == nil) {
-			or.Info = &Info{ID: 0, In: r.inputs(di.Inputs), Out: r.outputs(di.Outputs)}
+			or.Info = &Info{ID: r.infoID(int64(di.ID), op.Fn), In: r.inputs(di.Inputs), Out: r.outputs(di.Outputs)}
 		}
 
 	case "invoke":
@@ -278,9 +280,27 @@ func (r *run) callback(opIndex int) dig.Callback {
 		if ci.Error != nil {
 			errJS = string(Marshal(r.classify(ci.Error)))
 		}
-		r.event(fmt.Sprintf(`{"e":"cb","op":%d,"name":"","err":%s,"rt":%d}`,
-			opIndex, errJS, int64(ci.Runtime/time.Millisecond)))
+		name := ""
+		if r.req.M2 != "" {
+			name = m2Name(ci.Name)
+		}
+		r.event(fmt.Sprintf(`{"e":"cb","op":%d,"name":%q,"err":%s,"rt":%d}`,
+			opIndex, name, errJS, int64(ci.Runtime/time.Millisecond)))
 	}
+}
+
+// infoID is the "id" of an Info struct: 0 in reflect mode (all functions share one code
+// pointer); in M2 the fn id if the reported ID is that function's code pointer, else -1.
+func (r *run) infoID(reported int64, fn int) int {
+	if r.req.M2 == "" {
+		return 0
+	}
+	fs := r.fns[fn]
+	if fs != nil && fs.value != nil && reflect.ValueOf(fs.value).Kind() == reflect.Func &&
+		int64(reflect.ValueOf(fs.value).Pointer()) == reported {
+		return fn
+	}
+	return -1
 }
 
 // asArg builds the argument of dig.As described by a.
